@@ -3094,3 +3094,44 @@ use crate::source::VM_FILE_TEST_ID;
     }
   }
 }
+
+/// Verification hooks (cargo feature `verif`, off by default): read-only views of the private Pratt tables
+/// for the contract harnesses under /verif. Nothing here changes behaviour.
+#[cfg(feature = "verif")]
+pub mod verif {
+  use super::{get_infix, get_prefix, Precedence};
+  pub use crate::compiler::ir::token::TokenKind;
+
+  /// ordinal of the infix binding power of `kind` (None = 0 .. Primary = 11)
+  pub fn infix_precedence(kind: TokenKind) -> u8 {
+    get_infix(kind).precedence.clone() as u8
+  }
+
+  /// does `kind` have an infix parse action
+  pub fn has_infix(kind: TokenKind) -> bool {
+    get_infix(kind).op.is_some()
+  }
+
+  /// does `kind` have a prefix parse action
+  pub fn has_prefix(kind: TokenKind) -> bool {
+    get_prefix(kind).op.is_some()
+  }
+
+  /// ordinal of `Precedence::higher` applied to the precedence with ordinal `p` (`p` below Primary)
+  pub fn higher(p: u8) -> u8 {
+    let precedence = match p {
+      0 => Precedence::None,
+      1 => Precedence::Assignment,
+      2 => Precedence::Ternary,
+      3 => Precedence::Or,
+      4 => Precedence::And,
+      5 => Precedence::Equality,
+      6 => Precedence::Comparison,
+      7 => Precedence::Term,
+      8 => Precedence::Factor,
+      9 => Precedence::Unary,
+      _ => Precedence::Call,
+    };
+    precedence.higher() as u8
+  }
+}
